@@ -1,12 +1,31 @@
-import RlModel.Model.Val
-open RlModel
+import RlModel.Gen.Rules
+/-! C01 model driver.  Requests (one per line):
+  `cex <inst>`               → `;`-separated counterexamples of the instantiation over the small
+                               search domain, or `none`
+  `eval <inst> v1 v2 …`      → `<cond 0|1> <lhs value> <rhs value>` as the model evaluates them
+Values: `null`, `n:<int>`, `b:true|false`, `s:<text without spaces>`. -/
+open RlModel RlModel.Gen
+
+def answer (line : String) : String :=
+  match line.trimAscii.toString.splitOn " " with
+  | "cex" :: [inst] =>
+    match cexTable.lookup inst with
+    | some f => match f () with
+      | [] => "none"
+      | cs => ";".intercalate cs
+    | none => "unknown-inst"
+  | "eval" :: inst :: args =>
+    match evalTable.lookup inst with
+    | some f => match f args with
+      | some r => r
+      | none => "bad-args"
+    | none => "unknown-inst"
+  | _ => "bad-request"
 
 partial def loop (h : IO.FS.Stream) : IO Unit := do
   let line ← h.getLine
   if line.isEmpty then return ()
-  match Sexp.parse line.trimAscii.toString with
-  | some s => IO.println (toString s)
-  | none => IO.println "bad-request"
+  IO.println (answer line)
   loop h
 
 def main : IO Unit := do loop (← IO.getStdin)
